@@ -32,6 +32,24 @@ def classify_case(rep, text, types, expect, res, realsyn):
     return None
 
 
+_G = None
+
+
+def judge_tokens(job):
+    """worker: render a token-type string, make sure the real lexer gives it back, load it, compare with the grammar machine's verdict"""
+    global _G
+    from .. import realsyn
+    if _G is None:
+        from .. import g4
+        _G = g4.Grammar()
+    types, expect, variant = job
+    text = render.render_tokens(_G, types, variant=variant)
+    if text is None or [k["ty"] for k in realsyn.lex(text)] != types:
+        return None
+    obs = realsyn.loads_syntax_stage(text)
+    return text, list(obs), classify_case(None, text, types, expect, obs, realsyn)
+
+
 def fingerprint(desc):
     if "raised KeyError instead" in desc and "parentCtx" in desc:
         return "C10:KeyError-parentCtx"
@@ -39,40 +57,51 @@ def fingerprint(desc):
 
 
 def run(rep, tier, seed):
-    from .. import realsyn
+    from .. import realsyn, realrun
     rng = random.Random(seed)
     syn = syntax.Syntax()
     mods = syn.modules()
     g = syn.g
 
-    # (a) every viable prefix found by TLC, extended by every token type
-    L = 11 if tier == "quick" else 13
+    # (a) every viable prefix found by TLC, extended by every token type: from the start symbol, and from every rule context
+    L = 9 if tier == "quick" else 12
     r, sents = oracles.sentgen(mods, L)
     rep.add_tlc(r, "SentGen (viable prefixes up to %d tokens, with viable/accepting next tokens)" % L)
+    Lc = 2 if tier == "quick" else 4
+    ctx_cov = {"start": len(sents)}
+    names = [n_ for n_ in syntax.CONTEXTS if n_ != "start"]
+    rc, sc = oracles.sentgen(mods, Lc, prefixes=[syntax.context_tokens(g, n_) for n_ in names])
+    rep.add_tlc(rc, "SentGen from %d rule contexts (+%d tokens each)" % (len(names), Lc))
+    for n_ in names:
+        pre = syntax.context_tokens(g, n_)
+        ctx_cov[n_] = sum(1 for c in sc if c["w"][:len(pre)] == pre)
+    sents += sc
+    rep.cov["prefixes_per_rule_context"] = ctx_cov
     n = 0
     nbad = 0
-    ctx_cov = {}
+    jobs = []
     for c in sents:
         nxt, acc = set(c["next"]), set(c["acc"])
         for t in range(1, g.EOF):
             if t in g.skipped:
                 continue
-            if tier == "quick" and t not in nxt and rng.random() < 0.6:
+            if tier == "quick" and t not in nxt and len(c["w"]) < 10 and rng.random() < 0.6:
                 continue
             types = c["w"] + [t]
-            text = render.render_tokens(g, types, variant=rng.randrange(3))
-            if text is None or [k["ty"] for k in realsyn.lex(text)] != types:
-                continue
             expect = -1 if t in acc else (len(types) if t in nxt else len(c["w"]))
-            res = realsyn.loads_syntax_stage(text)
-            n += 1
-            desc = classify_case(rep, text, types, expect, res, realsyn)
-            if desc:
-                nbad += 1
-                rep.violation(desc + " | text=%r" % text, {"kind": "prefix", "text": text, "types": types, "expect": expect,
-                                                          "observed": list(res), "fingerprint": fingerprint(desc)})
-            elif n % 7000 == 3:
-                rep.sample({"text": text, "first_bad_token": expect, "observed": list(res)})
+            jobs.append((types, expect, rng.randrange(3)))
+    res = realrun.pmap(judge_tokens, jobs, chunk=500)
+    for (types, expect, _), rr in zip(jobs, res):
+        if rr is None:
+            continue
+        n += 1
+        text, obs, desc = rr
+        if desc:
+            nbad += 1
+            rep.violation(desc + " | text=%r" % text, {"kind": "prefix", "text": text, "types": types, "expect": expect,
+                                                      "observed": obs, "fingerprint": fingerprint(desc)})
+        elif n % 7000 == 3:
+            rep.sample({"text": text, "first_bad_token": expect, "observed": obs})
     rep.cov["prefix_cases"] = n
 
     # (b) single-token mutants of whole scripts (examples + synthetic scripts touching every rule context), judged by ParseOracle
